@@ -46,10 +46,22 @@ def norm_body(f, rename):
     """Multiset of normalised statements of a function (casts dropped, given variables renamed)."""
     out = []
 
+    import re as _re
+    # alpha-normalisation: parameters by position, locals by order of declaration - a rename on one side is not a difference
+    alpha = {pn: 'P%d' % i for i, (pn, pt) in enumerate(f.params)}
+    nloc = 0
+    for ev in f.events(('decl',)):
+        if ev['n'] not in alpha:
+            alpha[ev['n']] = 'L%d' % nloc
+            nloc += 1
+    pat = _re.compile(r'\b(' + '|'.join(_re.escape(k) for k in sorted(alpha, key=len, reverse=True)) + r')\b') if alpha else None
+
     def nm(e):
         s = pstr(e)
         for a, b in rename.items():
             s = s.replace(a, b)
+        if pat is not None:
+            s = pat.sub(lambda m: alpha[m.group(1)], s)
         return s
     def is_assert(b):
         return any(ev['k'] == 'call' and '__assert_fail' in pstr(ev['e'][1]) for ev in b['ev'])
@@ -63,7 +75,7 @@ def norm_body(f, rename):
         if ev['k'] == 'call' and '__assert_fail' in pstr(e[1]):
             continue
         if ev['k'] == 'decl':
-            out.append(('decl', ev['n'], nm(e) if e is not None else ''))
+            out.append(('decl', alpha.get(ev['n'], ev['n']), nm(e) if e is not None else ''))
         elif e is not None:
             out.append((ev['k'], nm(e)))
     for bid in f.reach():
@@ -120,8 +132,8 @@ def run(P, rep, tier):
     rep.ob('C25.ADAPT', 'update_cdf~dec_update_cdf', same, r.loc(),
            'writer and reader CDF adaptation have equal normalised bodies (%d statements)' % len(bw) if same else
            'writer and reader CDF adaptation differ: %s' % diff)
-    tw = [x for x in bw if x[0] == 'decl' and x[1] == 'nsymbs2speed']
-    tr = [x for x in br if x[0] == 'decl' and x[1] == 'nsymbs2speed']
+    tw = [x for x in bw if x[0] == 'decl' and x[2].startswith('{')]
+    tr = [x for x in br if x[0] == 'decl' and x[2].startswith('{')]
     rep.ob('C25.ADAPT', 'nsymbs2speed-table', bool(tw) and tw == tr, r.loc(), 'rate schedule tables: writer %s reader %s' % (tw[0][2] if tw else None, tr[0][2] if tr else None))
     rep.floor('C25.ADAPT', 2)
 
